@@ -1,6 +1,7 @@
 import Proofs.Lemmas.ContainerAccess
 import Proofs.Lemmas.ContainerIndex
 import Proofs.C09
+import FsicModel.ContainerAlias
 /-
 C10 — Label-based access addresses exactly the labelled periods.
 
@@ -635,6 +636,75 @@ example :
      (getItem s "X", getLabel s "X" 3, getPos s "X" 2, getLabelSlice s "X" (some 1) none none, getLabel s "X" 9))
     = (.array [4] [.i 5, .i 20, .i 5, .i 9], .elem (.i 9), .elem (.i 5), .array [3] [.i 20, .i 5, .i 9],
        .raised .key) := by
+  decide
+
+/-! ## Alias-enabled classes (`AliasMixin` in front of the container)
+
+The alias layer is `resolveName al` (M8's `Alias.resolve` on the instance's shortened alias map) applied to the
+*name* of an access; everything above carries over to the variable the alias stands for. -/
+
+/-- **Only names are resolved**: the operation handed to the base container has exactly the label arguments the
+    caller wrote — a label is never looked up in the alias map, whatever it is spelled like. -/
+theorem alias_resolves_names_only (al : Alias.AMap Name) (op : Op) :
+    (op.resolveNames al).labelArgs = op.labelArgs := by
+  cases op <;> rfl
+
+/-- **The label is passed through unchanged**: access through alias `a` at label `l` *is* access through
+    `resolve a` at label `l` — for every `l`, in particular for the label class `lab b` of a string `b` that is
+    itself an alias (or a variable name); reads, writes, single labels and slices. -/
+theorem alias_label_passthrough (al : Alias.AMap Name) (s : Store) (a : Name) (lab : Name → Nat) (b : Name)
+    (v : Operand) (kb : Option Nat) (st : Option Int) :
+    aGetLabel al s a (lab b) = getLabel s (resolveName al a) (lab b) ∧
+    aStep cfg al s (.setLabel a (lab b) v) = step cfg s (.setLabel (resolveName al a) (lab b) v) ∧
+    aGetLabelSlice al s a (some (lab b)) kb st = getLabelSlice s (resolveName al a) (some (lab b)) kb st ∧
+    aStep cfg al s (.setLabelSlice a (some (lab b)) kb st v)
+      = step cfg s (.setLabelSlice (resolveName al a) (some (lab b)) kb st v) :=
+  ⟨rfl, rfl, rfl, rfl⟩
+
+/-- Reading through an alias addresses the element at the label's position in the aliased variable. -/
+theorem alias_label_get (al : Alias.AMap Name) {s : Store} {a : Name} {ser : Series} {k p : Nat}
+    (hg : s.get (resolveName al a) = some ser) (hw : ser.wf s.n) (hl : locate s k = .pos p) (hp : p < s.n) :
+    aGetLabel al s a k = .elem (pick ser.data p) :=
+  label_get hg hw hl hp
+
+/-- Writing through an alias changes exactly that element of the aliased variable. -/
+theorem alias_label_set (al : Alias.AMap Name) {s : Store} {a : Name} {ser : Series} {k p : Nat} {v w : Val}
+    (hg : s.get (resolveName al a) = some ser) (hw : ser.wf s.n) (hl : locate s k = .pos p) (hp : p < s.n)
+    (hc : conv ser.dtype v = .ok w) :
+    aStep cfg al s (.setLabel a k (.scalar v)) =
+      (s.put (resolveName al a) { ser with data := setAt ser.data p w }, .ok) :=
+  label_set hg hw hl hp hc
+
+/-- **A label that is not in the span raises KeyError through an alias too** — also when the label is spelled like
+    an alias whose target *is* a period of the span: nothing is read, nothing is written. -/
+theorem alias_missing_label_keyerror (al : Alias.AMap Name) {s : Store} {k : Nat} (hl : locate s k = .missing)
+    (a : Name) (v : Operand) :
+    aGetLabel al s a k = .raised .key ∧ aStep cfg al s (.setLabel a k v) = (s, .raised .key) ∧
+    (∀ kb st, aGetLabelSlice al s a (some k) (some kb) st = .raised .key) ∧
+    (∀ kb st, aStep cfg al s (.setLabelSlice a (some k) (some kb) st v) = (s, .raised .key)) := by
+  have h := missing_label_keyerror (cfg := cfg) hl (resolveName al a) v
+  exact ⟨h.1, h.2.1, h.2.2.1, h.2.2.2.1⟩
+
+/-- **All names of a variable read the same series**: two names that resolve to the same variable (an alias and
+    its target, two aliases of one variable, the end of a chain) agree on every access path. -/
+theorem alias_paths_agree (al : Alias.AMap Name) (s : Store) {a b : Name} (h : resolveName al a = resolveName al b) :
+    aGetItem al s a = aGetItem al s b ∧ (∀ i, aGetPos al s a i = aGetPos al s b i) ∧
+    (∀ k, aGetLabel al s a k = aGetLabel al s b k) ∧
+    (∀ x y st, aGetLabelSlice al s a x y st = aGetLabelSlice al s b x y st) ∧
+    (∀ op_v k, aStep cfg al s (.setLabel a k op_v) = aStep cfg al s (.setLabel b k op_v)) := by
+  simp [aGetItem, aGetPos, aGetLabel, aGetLabelSlice, aStep, Op.resolveNames, h]
+
+/-- Non-vacuity (the regression this guards against): span `['Y', 'GDP', 'I']` = classes `[0, 1, 2]`, variables `Y`,
+    `C`; `ALIASES = {'GDP': 'Y', 'OUT': 'GDP'}` (a chain).  `obj['C', 'GDP']` addresses period `'GDP'` (position 1), not
+    period `'Y'`; `obj['OUT', 'GDP'] = 9` writes `Y[1]`; the absent label `'INV'` (class 7) raises KeyError. -/
+example :
+    (let al := aliasesOf [("GDP", "Y"), ("OUT", "GDP")]
+     let s := aRun Cfg.fixed al (init [0, 1, 2] .seq false)
+        [.addVariable "Y" (.list [.i 10, .i 20, .i 30]) none, .addVariable "C" (.list [.i 1, .i 2, .i 3]) none,
+         .setLabel "OUT" 1 (.scalar (.i 9))]
+     (al, aGetLabel al s "C" 1, aGetItem al s "GDP", aGetLabel al s "GDP" 7,
+      (aStep Cfg.fixed al s (.setLabel "C" 7 (.scalar (.i 0)))).2))
+    = ([("GDP", "Y"), ("OUT", "Y")], .elem (.i 2), .array [3] [.i 10, .i 9, .i 30], .raised .key, .raised .key) := by
   decide
 
 end Fsic.C10
